@@ -25,6 +25,10 @@ CLAIMED = {
             "Static decision of one clause of C38 only -- 'changes to an element's parameters, enable state or exclusions take effect at the next realization' (DESIGN section 3): "
             "every topology-parameter write invalidates the topology cache; every parameter variable's invalidation stage is coherent with what caches it; every per-force call honours the enabled flag; "
             "Gravity's zero/NaN pre-fill accompanies every parameter change that needs it. The force laws and energies themselves are numerical and are NOT decided."),
+    "C21": ("ORDER pipeline automaton (prescribeQ<realize<projectQ<prescribeU<realize<projectU with write-resets) over every DAE-step / interpolation / back-up / CPodes-projection body; helper summaries verified by the same automaton",
+            "Static decision of DESIGN section 3 C21: every state an integrator can hand back was produced by a path that completes the prescribe/realize/project pipeline after the last state write, "
+            "with the projection accuracy taken from getConstraintToleranceInUse() and failures rejecting the step. Holds for every model, accuracy and step sequence that drives these paths; "
+            "that projection converges / achieves the tolerance is numerical (C09) and not decided. One genuine violation on the pinned tree is recorded as a known finding."),
 }
 NA = {
  "C01": "numerical identity between O(n) recursions; no clause is visible in the shape of the code",
